@@ -214,18 +214,34 @@ def run(chk: Check) -> None:
 
     # ---------------- multipart: form-level model comparison + oracles
     n_cases = 1200 if quick else 20000
-    for i in range(n_cases):
-        mm = rng.choice([None, 8, 16, 40, 100])
-        mp = rng.choice([None, None, 0, 1, 2, 3, 1000])
-        sizes = [0, 1, 5] + ([mm - 1, mm, mm + 1, mm // 2] if mm else [30, 100])
-        if rng.random() < 0.85:
-            B, body = sized_body(rng, sizes)
+    # systematic sweep first: one or two fields whose size straddles the limit, every small buffer size
+    # (a field that only its LAST Data event pushes over the limit, a field exactly at the limit, ...)
+    sweep = []
+    for mm_ in (100, 150):          # (large enough for the header block to fit in the buffer)
+        for size_ in (mm_ - 1, mm_, mm_ + 1, mm_ + 2, mm_ + 9, 2 * mm_):
+            for bs_ in (1, 3, 7, 11, 16, 33, 64):
+                for pre_ in (0, 3):
+                    B_ = b"bnd"
+                    body_ = b""
+                    if pre_:
+                        body_ += b"--bnd\r\nContent-Disposition: form-data; name=\"p\"\r\n\r\n" + b"q" * pre_ + b"\r\n"
+                    body_ += b"--bnd\r\nContent-Disposition: form-data; name=\"f\"\r\n\r\n" + b"x" * size_ + b"\r\n--bnd--\r\n"
+                    sweep.append((mm_, None, B_, body_, bs_, 0))
+    for i in range(n_cases + len(sweep)):
+        if i < len(sweep):
+            mm, mp, B, body, bs, short = sweep[i]
         else:
-            B, body, _ = gen_body(rng, malformed=rng.random() < 0.5)
-        if rng.random() < 0.05:   # a body with no delimiter at all / one huge line
-            body = bytes(rng.choice(b"ab\r\n") for _ in range(rng.choice([10, 50, 150])))
-        bs = rng.choice([1, 2, 3, 7, 16, 64, 1 << 16])
-        short = rng.choice([0, 0, 1, 5])
+            mm = rng.choice([None, 16, 60, 100, 150, 400])
+            mp = rng.choice([None, None, 0, 1, 2, 3, 1000])
+            sizes = [0, 1, 5] + ([mm - 1, mm, mm + 1, mm // 2] if mm else [30, 100])
+            if rng.random() < 0.85:
+                B, body = sized_body(rng, sizes)
+            else:
+                B, body, _ = gen_body(rng, malformed=rng.random() < 0.5)
+            if rng.random() < 0.05:   # a body with no delimiter at all / one huge line
+                body = bytes(rng.choice(b"ab\r\n") for _ in range(rng.choice([10, 50, 150])))
+            bs = rng.choice([1, 2, 3, 7, 16, 64, 1 << 16])
+            short = rng.choice([0, 0, 1, 5])
         chunks = reads_of(body, bs, short)
         got = with_timeout(impl_form_parse, 30, B, body, bs, short, mm, mp)
         kinds = kinds_and_parts(B, body)
